@@ -108,7 +108,7 @@ var properties = map[string]propSpec{
 	},
 	"C08": {
 		Bounds: [2]map[string]any{
-			{"shapes": "5 ragged array-of-array shapes (inner lengths 0..2); 4 depth-3 / mixed-depth documents (empty array first, flat array first) nested and through mix=>", "queries": "filter, computed projection, mix=> flattening; nested evaluation against per-inner-array evaluation under WithVars (GETVAR, SETVAR), WithConstants and the Postgres dialect option"},
+			{"shapes": "5 ragged array-of-array shapes (inner lengths 0..2); 4 depth-3 / mixed-depth documents (empty array first, flat array first) nested and through mix=>; 3 documents whose inner arrays are overlapping windows of one 4-row backing array", "queries": "filter, computed projection, mix=> flattening; a mix=> query and the nested query on one document in either order; nested evaluation against per-inner-array evaluation under WithVars (GETVAR, SETVAR), WithConstants and the Postgres dialect option"},
 			{"shapes": "same", "queries": "same"}, // (no deeper bound: the shapes are fixed)
 		},
 		Outside: []string{"depth > 3", "GROUP BY / ORDER BY over nested sources"},
@@ -122,14 +122,14 @@ var properties = map[string]propSpec{
 	},
 	"C10": {
 		Bounds: [2]map[string]any{
-			{"queries": "36 + 32 malformed/unsupported/failing templates (INTO joins with unmatched rows, AWAIT forms, dual, selector functions and pipes in FROM, type-confused operands) × option combinations on a small symbolic document; every built-in function × 14 argument lists (wrong counts, wrong kinds, NULL) × {plain, ASYNC, SPIN, ONCE, SPINASYNC, GLOBAL, SCOPED} × {select list, WHERE}; every listed query (5 of them with a selector the selector parser rejects) executed three times on one Query object with and without WithVars, followed by an ordinary query that must be built and return; single-character mutants (9 replacements or deletion at every position) of every fourth listed query", "preprocessors": "every byte string ≤5 over {\" ' ` \\ [ ] a 0xC3}", "goroutines": "ASYNC/SPIN/SPINASYNC calls of failing and panicking functions, PARALLEL joins with failing ON: every schedule with ≤1 preemption"},
+			{"queries": "36 + 32 malformed/unsupported/failing templates (INTO joins with unmatched rows, AWAIT forms, dual, selector functions and pipes in FROM, type-confused operands) × option combinations on a small symbolic document; every built-in function × 14 argument lists (wrong counts, wrong kinds, NULL) × {plain, ASYNC, SPIN, ONCE, SPINASYNC, GLOBAL, SCOPED} × {select list, WHERE}; every listed query (5 of them with a selector the selector parser rejects, 3 CTEs referring to themselves through the navigation marker, 2 with failing AWAIT arguments) executed three times on one Query object with and without WithVars, followed by an ordinary query that must be built and return; single-character mutants (9 replacements or deletion at every position) of every fourth listed query", "preprocessors": "every byte string ≤5 over {\" ' ` \\ [ ] a 0xC3}", "goroutines": "ASYNC/SPIN/SPINASYNC calls of failing and panicking functions, PARALLEL joins with failing ON: every schedule with ≤1 preemption"},
 			{"queries": "same; mutants of every listed query", "preprocessors": "≤7 bytes", "goroutines": "same"},
 		},
 		Outside: []string{"sqlparser.Parse on arbitrary bytes: the generated LALR parser is not encodable, so 'all byte strings as queries' is covered only through the template list"},
 	},
 	"C11": {
 		Bounds: [2]map[string]any{
-			{"documents": "0..2 rows × nested arrays of 1..2 rows", "queries": "24 templates (FUSE of a nested object as first / middle / aliased / repeated select item; filters, subqueries, EXISTS, CTE on SELECT / on UNION / in a derived table / in an IN-subquery, joins, ORDER BY, aggregates, DISTINCT, selector functions) × with/without Wrapped(); 13 joins against a second table with unmatched rows (LEFT/RIGHT/inner, hash / nested loop / STRAIGHT / PARALLEL, INTO, with and without aliases)", "faults": "a user function failing at its k-th invocation, k = none,1,2,3"},
+			{"documents": "0..2 rows × nested arrays of 1..2 rows", "queries": "27 templates (SETVAR/GETVAR/CONSTANT without their option; FUSE of a nested object as first / middle / aliased / repeated select item; filters, subqueries, EXISTS, CTE on SELECT / on UNION / in a derived table / in an IN-subquery, joins, ORDER BY, aggregates, DISTINCT, selector functions) × with/without Wrapped(); 13 joins against a second table with unmatched rows (LEFT/RIGHT/inner, hash / nested loop / STRAIGHT / PARALLEL, INTO, with and without aliases)", "faults": "a user function failing at its k-th invocation, k = none,1,2,3"},
 			{"documents": "same", "queries": "same", "faults": "same"},
 		},
 	},
@@ -142,14 +142,14 @@ var properties = map[string]propSpec{
 	},
 	"C13": {
 		Bounds: [2]map[string]any{
-			{"threads": "2 concurrent ExecReader calls (4 selector texts, cold and warm cache); 2 concurrent queries (7 templates incl. ASYNC, SPINASYNC and a PARALLEL join) on separate and on one shared document; 2 concurrent uses of distinct=>, mix=>, ranges and pipes through ExecReader and through FROM; every query of the C10/C11/C12/C13 lists plus 14 more clause/function forms run by two threads at once on separate documents (one schedule each: unsynchronised package-level state is a race under any schedule)", "schedules": "every schedule with ≤2 (readers) / ≤1 (queries, selector functions) preemptions at synchronisation granularity; vector-clock happens-before race monitor"},
+			{"threads": "2 concurrent ExecReader calls (6 selector texts, two of them differing only in a space inside a quoted key; cold and warm cache; against the solo result and the documented value); 2 concurrent queries (7 templates incl. ASYNC, SPINASYNC and a PARALLEL join) on separate and on one shared document; 2 concurrent uses of distinct=>, mix=>, ranges and pipes through ExecReader and through FROM; every query of the C10/C11/C12/C13 lists plus 14 more clause/function forms run by two threads at once on separate documents (one schedule each: unsynchronised package-level state is a race under any schedule)", "schedules": "every schedule with ≤2 (readers) / ≤1 (queries, selector functions) preemptions at synchronisation granularity; vector-clock happens-before race monitor"},
 			{"threads": "3 readers; query pairs additionally pair ASYNC, SPINASYNC and the PARALLEL join with themselves", "schedules": "≤2 preemptions (readers, selector functions), ≤1 (queries)"},
 		},
 		Outside: []string{"more threads", "effects below happens-before (word tearing)"},
 	},
 	"C14": {
 		Bounds: [2]map[string]any{
-			{"rows": "0..2", "calls": "ASYNC, AWAIT(ASYNC), SPINASYNC+SPIN, ONCE, ASYNC inside a derived table and a subquery, SPINASYNC inside a subquery / derived table / EXISTS / CTE; built-in and user-registered (any letter case) immediate functions × 6 qualifier spellings", "schedules": "≤1 preemption"},
+			{"rows": "0..2", "calls": "UNION ALL branches with SPINASYNC calls and no awaiting column; ASYNC, AWAIT(ASYNC), SPINASYNC+SPIN, ONCE, ASYNC inside a derived table and a subquery, SPINASYNC inside a subquery / derived table / EXISTS / CTE; built-in and user-registered (any letter case) immediate functions × 6 qualifier spellings", "schedules": "≤1 preemption"},
 			{"rows": "0..3 (nested forms 0..2)", "calls": "same", "schedules": "≤2 preemptions for 0..2 rows (nested forms: 0..1), ≤1 preemption otherwise"},
 		},
 		Outside: []string{"completion of SPIN calls (not promised)"},
@@ -163,7 +163,7 @@ var properties = map[string]propSpec{
 	},
 	"C16": {
 		Bounds: [2]map[string]any{
-			{"string arguments": "every byte string ≤3 over {' \\ - # blank a \" ; / * NUL 0xC3}", "scalars": "int64 -11..11 and 7 values at the limits (MinInt64, MaxInt64, ±2^53±1, 2^62), 15 float64 values (MaxFloat64, smallest subnormal, 1e±300, 0.1), booleans, NULL × 3 syntactic positions", "templates": "'SELECT '+t+' FROM x' for every t ≤4 bytes over {$ 1 ' \" ` - / * # newline blank a \\}", "comments": "/*body*/$1 for every body ≤3 bytes over {* / blank quote $ 1}", "argument accounting": "missing, unused, $0, repeated, placeholder numbers beyond the integer range; 1, 2, 31..33, 63..66, 128, 129, 257 arguments all used or all but the first / last / middle one", "two placeholders": "two string arguments ≤2 bytes each in three positions"},
+			{"string arguments": "every byte string ≤3 over {' \\ - # blank a \" ; / * NUL 0xC3}", "scalars": "int64 -11..11 and 7 values at the limits (MinInt64, MaxInt64, ±2^53±1, 2^62), 15 float64 values (MaxFloat64, smallest subnormal, 1e±300, 0.1), ±2^k and both neighbours for k in {24,31,32,52,53,62,63,64,65,127,128}, booleans, NULL × 3 syntactic positions", "templates": "'SELECT '+t+' FROM x' for every t ≤4 bytes over {$ 1 ' \" ` - / * # newline blank a \\}", "comments": "/*body*/$1 for every body ≤3 bytes over {* / blank quote $ 1}", "argument accounting": "missing, unused, $0, repeated, placeholder numbers beyond the integer range; 1, 2, 31..33, 63..66, 128, 129, 257 arguments all used or all but the first / last / middle one", "two placeholders": "two string arguments ≤2 bytes each in three positions"},
 			{"string arguments": "≤4 bytes", "scalars": "same", "templates": "≤5 bytes", "argument accounting": "same"},
 		},
 		Outside: []string{"[]byte and time.Time arguments", "the parser and tokenizer run natively on each concretised text: a symbolic query text is concretised byte by byte (bounded enumeration by the solver)"},
@@ -177,7 +177,7 @@ var properties = map[string]propSpec{
 	},
 	"C18": {
 		Bounds: [2]map[string]any{
-			{"arrays": "length 0..3 with optional NULLs", "index": "any float64 in (-2^31, 2^31), fractional and negative included", "case maps": "TO_UPPER/TO_LOWER on one- and two-rune strings over 23 runes (Latin digraphs, Georgian, Greek sigma, dotted/dotless i, sharp s, ligatures, Deseret, invalid UTF-8)", "argument spellings": "negative literals and arithmetic as arguments of CONCAT, ARRAY, CHANGETYPE, FIRST, IF, ELEMENTAT", "arity": "21 fixed-arity functions × every other argument count up to arity+2", "functions": "CHANGETYPE of every text ≤3 bytes over {0 1 8 9 x - _ . +} and of halves -2.5..3 to integer/double/string/array (any case) and unknown targets; FIRST LAST ELEMENTAT UNWIND ARRAY IF (NULL branches included) CONCAT CHANGETYPE DATERANGE CONSTANT DEFAULTKEY FUSE TO_LOWER TO_UPPER (ASCII, ≤2 bytes) and 9 wrong-arity calls"},
+			{"arrays": "length 0..3 with optional NULLs", "index": "any float64 in (-2^31, 2^31), fractional and negative included", "case maps": "TO_UPPER/TO_LOWER on one- and two-rune strings over 23 runes (Latin digraphs, Georgian, Greek sigma, dotted/dotless i, sharp s, ligatures, Deseret, invalid UTF-8)", "argument spellings": "negative literals and arithmetic as arguments of CONCAT, ARRAY, CHANGETYPE, FIRST, IF, ELEMENTAT", "arity": "21 fixed-arity functions × every other argument count up to arity+2", "functions": "CHANGETYPE of every text ≤3 bytes over {0 1 8 9 x - _ . +} and of halves -2.5..3 to integer/double/string/array (any case) and unknown targets; FIRST LAST ELEMENTAT UNWIND ARRAY IF (NULL branches included) CONCAT (adjacent non-string arguments included) CHANGETYPE DATERANGE CONSTANT DEFAULTKEY FUSE TO_LOWER TO_UPPER (ASCII, ≤2 bytes) and 9 wrong-arity calls"},
 			{"arrays": "same", "index": "same", "functions": "same"},
 		},
 		Outside: []string{"ENCODE/DECODE (gob reflection) and HASH (md5/sha1/sha512 compression functions) have no model: not applicable to this technique", "CHANGETYPE string↔double round trip is the NumText axiom itself"},
